@@ -63,5 +63,14 @@ def build(reg):
         bounded=["a Counter of bitstrings is represented by ONE arbitrary entry {string: count} (the code maps "
                  "the entries independently); number of evaluation times, atoms and string length are symbolic",
                  "[N=4] variants repeat a clause at N = 4 only to obtain concrete counter-models on a broken "
-                 "tree; the proofs are the symbolic-N contracts"],
+                 "tree; the proofs are the symbolic-N contracts",
+                 "suffixed result tags (Observable(tag_suffix=...), stored under base_tag + '_' + suffix; "
+                 "check_permutable_observables looks at the base tag, so they occur with the optimisation on): the "
+                 "[tag_suffix] contracts use a Results model holding the three exact tags, one representative "
+                 "suffixed tag per per-atom kind (bitstrings_z, occupation_x, correlation_matrix_y) and three tags "
+                 "that are not per atom (energy, energy_x, energy_variance_corr: must stay the very same data); "
+                 "suffix strings are concrete representatives, not symbolic.  A tag that merely starts with the "
+                 "letters of a per-atom base tag without the underscore cannot occur while the optimisation is on "
+                 "(base tags outside the whitelist switch it off, C33), so the underscore in the matching rule is "
+                 "not observable and is not demanded"],
     )
